@@ -3,6 +3,9 @@ package mon
 import (
 	"bytes"
 	"fmt"
+	"github.com/z7zmey/php-parser/pkg/ast"
+	"github.com/z7zmey/php-parser/pkg/visitor"
+	"github.com/z7zmey/php-parser/pkg/visitor/traverser"
 	"os"
 	"os/exec"
 	"path/filepath"
@@ -117,6 +120,19 @@ func c11Jobs(seed int64, label string, idx, n int) []c11Job {
 		var pc parseCase
 		if r.Chance(1, 8) {
 			pc = parseCase{c11Deep(r), pickVersion(r), "deep"}
+		} else if r.Chance(1, 9) {
+			// a long flat operator chain (left-deep tree)
+			var sb strings.Builder
+			sb.WriteString("<?php $r = $a0")
+			op := r.Pick(" . ", " + ", " - ", " * ", " && ", " ?? ", " . ", " . ")
+			for k, m := 1, r.Range(5, 400); k < m; k++ {
+				if r.Chance(1, 6) {
+					op = r.Pick(" . ", " + ", " . ", " | ", " and ")
+				}
+				fmt.Fprintf(&sb, "%s$a%d", op, k)
+			}
+			sb.WriteString(";")
+			pc = parseCase{[]byte(sb.String()), pickVersion(r), "operator-chain"}
 		} else if r.Chance(1, 10) {
 			// PHP 5 compile-time errors (reported from grammar actions, with their own error values) at PRNG places
 			src := "<?php" + strings.Repeat("\n", r.Intn(6)) + strings.Repeat(" $x;", r.Intn(4))
@@ -205,6 +221,9 @@ func c11Batch(c *core.Ctx, label string, idx int, instrumented bool) {
 			}
 		}
 	}
+	if !c11SharedTraverser(c, jobs, procs, instrumented) {
+		return
+	}
 	if instrumented {
 		sort.Slice(events, func(a, b int) bool { return events[a].seq < events[b].seq })
 		var sb strings.Builder
@@ -237,6 +256,87 @@ func c11Batch(c *core.Ctx, label string, idx int, instrumented bool) {
 		}
 		c.Sample(map[string]interface{}{"goroutines": n, "gomaxprocs": procs, "inputs": ins, "stages": "parse, print, dump(tokens+positions), dump, traverse, resolve", "compared_with": "sequential run of the same pipelines afterwards"})
 	}
+}
+
+// c11SharedTraverser: ONE Traverser value (it holds nothing but its visitor) walks the trees of the batch on all
+// goroutines at once. In the uninstrumented run the shared visitor counts the presentations of every node under
+// a mutex: every node of every tree exactly once, nothing else. In the race twin the shared visitor is the
+// stateless visitor.Null, so that the only shared state the race detector can see is the traverser's own.
+func c11SharedTraverser(c *core.Ctx, jobs []c11Job, procs int, counting bool) bool {
+	var roots []ast.Vertex
+	var owners []int
+	for i, j := range jobs {
+		pr := obs.Parse(append([]byte(nil), j.src...), j.ver, true)
+		if pr.Panic == nil && pr.Root != nil {
+			roots = append(roots, pr.Root)
+			owners = append(owners, i)
+		}
+	}
+	if len(roots) < 2 {
+		return true
+	}
+	var mu sync.Mutex
+	counts := map[ast.Vertex]int{}
+	var v ast.Visitor = &visitor.Null{}
+	if counting {
+		v = &FuncVisitor{F: func(n ast.Vertex, _ string) {
+			mu.Lock()
+			counts[n]++
+			mu.Unlock()
+		}}
+	}
+	shared := traverser.NewTraverser(v)
+	panics := make([]*obs.Panic, len(roots))
+	var wg sync.WaitGroup
+	start := make(chan struct{})
+	for i := range roots {
+		wg.Add(1)
+		go func(i int) {
+			defer wg.Done()
+			<-start
+			panics[i] = obs.Try(func() { shared.Traverse(roots[i]) })
+		}(i)
+	}
+	close(start)
+	wg.Wait()
+	c.Add("trees_walked_by_one_shared_traverser", int64(len(roots)))
+	for i, p := range panics {
+		if p != nil {
+			j := jobs[owners[i]]
+			c.Violation("concurrent|shared-traverser|"+p.Sig, "a Traverser shared by the goroutines of the batch panicked: "+p.Msg, core.W(j.src, j.ver).With("goroutines", fmt.Sprint(len(roots))))
+			return false
+		}
+	}
+	if !counting {
+		return true
+	}
+	total := 0
+	for i, root := range roots {
+		bad := ""
+		obs.Walk(root, func(n, parent ast.Vertex, role string, _ int) bool {
+			total++
+			if k := counts[n]; k != 1 && bad == "" {
+				bad = fmt.Sprintf("%s<%s.%s was presented %d times", obs.Kind(n), obs.Kind(parent), role, k)
+			}
+			return true
+		})
+		if bad != "" {
+			j := jobs[owners[i]]
+			c.Violation("concurrent|shared-traverser|node-not-presented-exactly-once", fmt.Sprintf("one Traverser walking %d trees on %d goroutines (GOMAXPROCS=%d): %s", len(roots), len(roots), procs, bad), core.W(j.src, j.ver).With("goroutines", fmt.Sprint(len(roots))))
+			return false
+		}
+	}
+	sum := 0
+	for _, k := range counts {
+		sum += k
+	}
+	if sum != total {
+		j := jobs[owners[0]]
+		c.Violation("concurrent|shared-traverser|foreign-nodes-presented", fmt.Sprintf("the shared visitor received %d presentations, the trees hold %d nodes", sum, total), core.W(j.src, j.ver))
+		return false
+	}
+	c.Add("nodes_presented_exactly_once_by_a_shared_traverser", int64(total))
+	return true
 }
 
 // c11Predecessors: "parsing the same input twice always gives identical trees and errors" — whatever
